@@ -196,6 +196,7 @@ def run(ctx):
             ctx.violation(f"assignments under salts {salts} are not independent over {size} {fam} ids: chi2={chi:.1f} df={df} p={p:.2e}",
                           {"family": fam, "weights": ws, "salts": salts, "table": table, "chi2": chi, "p": p})
     choicelib.run_half_step(ctx, 60)
+    choicelib.run_key_lengths(ctx, 20 if ctx.tier == 'quick' else 24)
     ctx.extra["statistical_tests"] = stats[:40]
     ctx.extra["min_p"] = min((s["p"] for s in stats), default=1.0)
     ctx.assumptions.append("MD5 positions of realistic ids are equidistributed: measured (chi-square at 1e-9), not proved")
